@@ -1006,6 +1006,7 @@ func generate(tier string, seed uint64) []job {
 	g.genCmsg()
 	g.genListeners()
 	g.genMore()
+	g.genThird()
 	return g.jobs
 }
 
